@@ -319,6 +319,32 @@ fn spaces(thorough: bool) -> Vec<(String, u64, String, Box<dyn Fn(u64, &mut Acc)
         let b = rz::write_tzif(&zone(2, vec![], &footer));
         case_bytes(&format!("footer rule {:?}", footer), &b, i % 64 == 0, acc);
     })));
+    // valid multi-byte characters (the footer only has to be UTF-8): substituted for, and inserted
+    // before, every character of well-formed footers of every shape
+    let shapes: Vec<&'static str> = vec!["CET-1", "<+0330>-3:30", "CET-1CEST,M3.5.0,M10.5.0/3", "EST5EDT4,M3.2.0/2:00:00,M11.1.0/-1", "<-03>3<-02>,J60/0,J300/1:30", "AEST-10AEDT,280,89/26", "IST-1GMT0,M10.5.0,M3.5.0/1"];
+    let wide: [char; 5] = ['\u{e9}', '\u{20ac}', '\u{1f600}', '\u{ff10}', '\u{660}'];
+    let mut mb: Vec<String> = vec![];
+    for f in &shapes {
+        let chars: Vec<char> = f.chars().collect();
+        for pos in 0..=chars.len() {
+            for w in wide {
+                let mut ins = chars.clone();
+                ins.insert(pos, w);
+                mb.push(ins.into_iter().collect());
+                if pos < chars.len() {
+                    let mut sub = chars.clone();
+                    sub[pos] = w;
+                    mb.push(sub.into_iter().collect());
+                }
+            }
+        }
+    }
+    let nmb = mb.len() as u64;
+    v.push(("multi-byte characters: every position of 7 well-formed footers x {substitute, insert} x 5 characters (2-, 3-, 4-byte, full-width and Arabic-Indic digits) x {v2, v3}".into(), nmb * 2, "the footer is valid UTF-8 but not ASCII: byte-wise readers must not split a character".into(), Box::new(move |i, acc| {
+        let f = &mb[(i / 2) as usize];
+        let b = rz::write_tzif(&zone(if i % 2 == 0 { 2 } else { 3 }, vec![], f));
+        case_bytes(&format!("footer multibyte {:?}", f), &b, true, acc);
+    })));
     let junk: Vec<Vec<u8>> = vec![vec![], b"TZif".to_vec(), b"TZif2".to_vec(), vec![0; 44], vec![0xff; 100], b"TZif3\0\0\0\0\0\0\0\0\0\0\0\0\0\0\0".to_vec(), b"not a tz file at all".to_vec()];
     v.push(("non-TZif byte strings".into(), junk.len() as u64, "".into(), Box::new(move |i, acc| case_bytes("junk", &junk[i as usize], true, acc))));
     v
